@@ -19,6 +19,11 @@ import (
 	"golang.org/x/tools/go/ssa"
 )
 
+// KnownNames: every function name that existed in the tree the table was generated from, per
+// package. A function that still has one of those names was not renamed, so it is not a candidate
+// when another anchor has to be resolved by shape.
+var knownNames = map[string]bool{}
+
 type AnchorShape struct {
 	Pkg     string   `json:"pkg"`
 	Spec    string   `json:"spec"`
@@ -133,8 +138,32 @@ func loadAnchors() {
 	var list []AnchorShape
 	if json.Unmarshal(b, &list) == nil {
 		for _, a := range list {
+			if a.Spec == "*names*" {
+				for _, n := range a.Callees {
+					knownNames[a.Pkg+"|"+n] = true
+				}
+				continue
+			}
 			anchorTable[a.Pkg+"|"+a.Spec] = a
 		}
+	}
+}
+
+// RecordNames adds the function names of the module's own packages to the table being generated.
+func RecordNames(p *Prog) {
+	anchorMu.Lock()
+	defer anchorMu.Unlock()
+	per := map[string][]string{}
+	for _, fn := range p.SrcFuncs(RootMod) {
+		if fn.Parent() != nil {
+			continue
+		}
+		pk := FuncPkgPath(fn)
+		per[pk] = append(per[pk], fn.Name())
+	}
+	for pk, names := range per {
+		sort.Strings(names)
+		Requested[pk+"|*names*"] = AnchorShape{Pkg: pk, Spec: "*names*", Callees: names}
 	}
 }
 
@@ -203,7 +232,10 @@ func (p *Prog) resolveByShape(pkgPath, spec string) *ssa.Function {
 		if (fn.Signature.Recv() != nil) != isMethod {
 			continue
 		}
-		// a function that still has its own name-anchored identity elsewhere is not a candidate
+		// a function that kept a name of the original tree was not renamed: not a candidate
+		if knownNames[pkgPath+"|"+fn.Name()] {
+			continue
+		}
 		sh := shapeOf(fn)
 		if sh.Sig != want.Sig {
 			continue
